@@ -286,7 +286,20 @@ func (o *Omni) observe(p *Party, r *CallResult) {
 	if inIsOTR {
 		before := len(sp.Inbox)
 		wasEnc := sp.Encrypted
-		out, err := sp.Receive(r.In)
+		var out [][]byte
+		var err error
+		if _, perr := refotr.ParseArmored(r.In); perr != nil && refotr.IsArmored(r.In) {
+			// not strictly well-formed: if only the unauthenticated remainder is unusual
+			// (bytes after the old-MAC-keys field, line breaks in the armour) a tolerant
+			// receiver may accept it; the shadow follows the tolerant reading
+			if d, _, ok := parseDataLenient(r.In); ok {
+				out, err = sp.ReceiveParsed(d)
+			} else {
+				out, err = sp.Receive(r.In)
+			}
+		} else {
+			out, err = sp.Receive(r.In)
+		}
 		v := &Verdict{Accepted: err == nil}
 		var ce *refotr.CheckError
 		if errors.As(err, &ce) {
